@@ -969,6 +969,9 @@ func (w *World) replayObligation(rep *FuncReport, o *Obligation, root string, ti
 	if e == nil || fr == nil {
 		return replayResult{Note: "replay not possible: no encoder state"}
 	}
+	// replays of several obligations of one function share its encoder: one at a time
+	e.replayMu.Lock()
+	defer e.replayMu.Unlock()
 	fn := fr.fn
 	if o.Kind != "post" && o.Kind != "bounds" && o.Kind != "nil" {
 		return replayResult{Note: "replay not attempted: obligations of kind " + o.Kind + " (inside the function body) have no observable counterpart at the function boundary"}
